@@ -274,7 +274,8 @@ def runInvoke (inp out : Json) : Json :=
                     let ms := (jarr out "members").toList.map parseResult
                     ms.length == es.length && (es.zip ms).all (fun (ei, mi) => sameInvoked (invoke ei c) mi)
                   | _ => false
-                Json.mkObj [("C06", Json.bool (same || (match real with | some r => r.1.messages == model.1.messages | none => false))),
+                Json.mkObj [("C05", Json.bool (same || (match real with | some r => r.1.nospace == model.1.nospace | none => false))),
+                            ("C06", Json.bool (same || (match real with | some r => r.1.messages == model.1.messages | none => false))),
                             ("C09", Json.bool (same || !batchOnly)),
                             ("C11", Json.bool (same || !hasMultiParts e || batchOnly)),
                             ("C12", Json.bool (same || batchOnly || (match e with | .multiParts .. => true | _ => false)))]),
